@@ -431,6 +431,13 @@ func NodeStartPos(node *Node) token.LnColPos {
 		return node.AttrExpr().Start
 
 	case TypeIndexExpr:
+		if node.IndexExpr().Obj == nil {
+			// object-less `.[i]`: start at the first bracket
+			if len(node.IndexExpr().LBracket) > 0 {
+				return node.IndexExpr().LBracket[0]
+			}
+			return token.InvalidLnColPos
+		}
 		return node.IndexExpr().Obj.Start
 
 	case TypeUnaryExpr:
